@@ -192,7 +192,8 @@ def run_case(ctx, case):
     if case["state"] == "some" and B > 1:
         pre = sorted(rng.sample(allb, rng.randint(1, B - 1)))
     elif case["state"] == "all_but_one" and B > 1:
-        pre = [b for b in allb if b != rng.choice(allb)]
+        left_out = rng.choice(allb)
+        pre = [b for b in allb if b != left_out]
     with quiet():
         if pre:
             crop.grow(pre)
